@@ -11,6 +11,8 @@ use proptest::prelude::*;
 use serde::{Deserialize, Serialize};
 
 pub const CAPS: &[usize] = &[1, 2, 3, 4, 5, 6, 8, 13, 16, 32, 64, 256];
+/// additional large capacities used by the long-frame families
+pub const BIG_CAPS: &[usize] = &[512, 1024];
 
 #[derive(Clone, Copy, Debug, PartialEq, Eq, Serialize, Deserialize)]
 pub enum Kind {
@@ -127,6 +129,8 @@ pub fn drive_dyn(n: usize, shape: &Shape, stream: &[u8], cuts: &[usize], use_ref
         32 => drive::<32>(shape, stream, cuts, use_ref),
         64 => drive::<64>(shape, stream, cuts, use_ref),
         256 => drive::<256>(shape, stream, cuts, use_ref),
+        512 => drive::<512>(shape, stream, cuts, use_ref),
+        1024 => drive::<1024>(shape, stream, cuts, use_ref),
         _ => panic!("harness bug: no accumulator capacity {}", n),
     }
 }
@@ -176,6 +180,10 @@ pub enum Seg {
     Tail(Vec<u8>),
     /// over-long run of non-zero bytes + 0 (C09 only)
     Long(usize, u8),
+    /// well-formed COBS frame whose payload is the value's encoding with the last k bytes cut off
+    Short(Value, u8),
+    /// well-formed COBS frame whose payload is the value's encoding followed by extra bytes
+    Extra(Value, Vec<u8>),
 }
 
 pub fn nz(b: u8) -> u8 {
@@ -211,6 +219,17 @@ pub fn build_stream(shape: &Shape, segs: &[Seg], fit: Option<usize>) -> Vec<u8> 
                 (v, true)
             }
             Seg::Tail(g) => (g.iter().map(|b| nz(*b)).collect(), false),
+            Seg::Short(v, k) => {
+                let mut p = ref_encode(shape, v).unwrap().bytes;
+                let cut = (*k as usize % 3 + 1).min(p.len());
+                p.truncate(p.len() - cut);
+                (refcobs::frame(&p), true)
+            }
+            Seg::Extra(v, x) => {
+                let mut p = ref_encode(shape, v).unwrap().bytes;
+                p.extend_from_slice(x);
+                (refcobs::frame(&p), true)
+            }
             Seg::Long(n, b) => {
                 let mut v = vec![nz(*b); *n];
                 v.push(0);
@@ -248,7 +267,9 @@ pub fn arb_seg(shape: &Shape, allow_long: bool) -> BoxedStrategy<Seg> {
     let vs = gen::arb_value(shape, gen::ValCfg { max_len: 20, max_seq: 3 });
     let mut alts: Vec<(u32, BoxedStrategy<Seg>)> = vec![
         (6, vs.clone().prop_map(Seg::Valid).boxed()),
-        (2, (vs, any::<u16>(), any::<u8>()).prop_map(|(v, p, b)| Seg::Corrupt(v, p, b)).boxed()),
+        (2, (vs.clone(), any::<u16>(), any::<u8>()).prop_map(|(v, p, b)| Seg::Corrupt(v, p, b)).boxed()),
+        (2, (vs.clone(), any::<u8>()).prop_map(|(v, k)| Seg::Short(v, k)).boxed()),
+        (1, (vs, proptest::collection::vec(any::<u8>(), 1..3)).prop_map(|(v, x)| Seg::Extra(v, x)).boxed()),
         (1, Just(Seg::Empty).boxed()),
         (1, proptest::collection::vec(1u8..=255, 0..6).prop_map(Seg::Garbage).boxed()),
         (1, proptest::collection::vec(1u8..=255, 1..5).prop_map(Seg::Tail).boxed()),
@@ -284,4 +305,42 @@ pub fn arb_cuts(len: usize) -> BoxedStrategy<Vec<usize>> {
         }),
     ]
     .boxed()
+}
+
+/// Streams of long frames (payloads of 200-700 bytes with a few zero bytes) for the large
+/// capacities: (capacity, shape, stream)
+pub fn arb_long_frame_stream() -> BoxedStrategy<(usize, Shape, Vec<u8>)> {
+    let payload = (200usize..700, proptest::collection::vec((any::<u16>(), any::<bool>()), 0..6), any::<u8>()).prop_map(|(n, zeros, fill)| {
+        let mut p = vec![nz(fill); n];
+        for (pos, _) in zeros {
+            let i = gen::pick_idx(pos, n);
+            p[i] = 0;
+        }
+        p
+    });
+    (0..BIG_CAPS.len(), proptest::collection::vec((payload, 0..3u8), 1..4), any::<bool>())
+        .prop_map(|(ci, frames, as_string)| {
+            let n = BIG_CAPS[ci];
+            let shape = if as_string { Shape::String } else { Shape::ByteBuf };
+            let mut stream = vec![];
+            for (p, kind) in frames {
+                let v = if as_string {
+                    Value::Str(p.iter().map(|b| if *b == 0 { '\0' } else { (b'a' + b % 26) as char }).collect())
+                } else {
+                    Value::Bytes(p)
+                };
+                let enc = ref_encode(&shape, &v).unwrap().bytes;
+                let mut f = refcobs::frame(&enc);
+                if kind == 1 && f.len() > 3 {
+                    let i = f.len() / 2;
+                    f[i] = nz(f[i].wrapping_add(1));
+                }
+                stream.extend(f);
+                if kind == 2 {
+                    stream.extend_from_slice(&[7, 7, 0]);
+                }
+            }
+            (n, shape, stream)
+        })
+        .boxed()
 }
